@@ -203,6 +203,9 @@ def hdLine (d : HDDrv) (lineNo : Nat) (ts : List String) : HDDrv × List String 
         -- monitors
         let v10 :=
           (if ic == "ok" && !legal then ["C10.illegal-action-accepted"] else []) ++
+          -- C02: an action accepted for an entry of the hand was submitted by that entry's player — never by somebody who is
+          -- not in the hand's list at all (a player who left, or busted, after an earlier hand)
+          (if ic == "ok" && gi.isNone then ["C02.action-accepted-from-a-player-who-is-not-an-entry-of-the-hand"] else []) ++
           (if ic != "ok" && same == "0" then ["C10.refused-action-left-a-trace"] else []) ++
           (if ic == "ok" && (wagerKinds.contains kind || kind == "pass") then
             (match parseLast ev, r.1.last with
